@@ -63,8 +63,8 @@ def job(spec):
     files = [list(open(f, "rb").read()[-(k * c * nbits // 8):]) if k else [] for f, k in zip(names, spec["split"])]
     hdr = {"files": files, "nbits": nbits, "nchans": c, "vals": [int(x) for x in data.ravel()], "N": n}
     ev = []
+    fil = FilReader(names)     # one reader object for the whole history of calls
     for call in spec["calls"]:
-        fil = FilReader(names)
         op, gulp, start, nsamps = call["op"], call["gulp"], call["start"], call["nsamps"]
         e = {"op": op, "gulp": gulp, "start": start, "nsamps": nsamps, "q": Q, "ch": call.get("ch", 0),
              "del": [0] * c, "vals": [], "valsq": [], "chans": [], "full": False, "hdr_nsamples": -1}
@@ -108,8 +108,8 @@ def job(spec):
                 e["chans"] = [{"count": int(cnt[i]), "mn": _fx(mn[i], 1), "mx": _fx(mx[i], 1), "meanq": _fx(mean[i], Q),
                                "varq": _fx(var[i], Q), "skewq": _fx(sk[i], 64), "kurtq": _fx(ku[i], 64)} for i in range(c)]
         e["outcome"] = oc if oc == "ok" else oc
-        fil._file.close()
         ev.append(e)
+    fil._file.close()
     return {"hdr": hdr, "ev": ev, "spec": {k: spec[k] for k in ("N", "C", "nbits", "split", "data", "id")}}
 
 
